@@ -388,7 +388,17 @@ func (g *generator) next(w *world) (op, bool, error) {
 	case x < 45:
 		set := g.genSet(view, uid)
 		rows, _ := resolveRows(view, set, uid)
-		return op{Kind: "STORE", S: si, UID: uid, Set: set, Act: g.genAct(), Silent: g.rng.Chance(0.3), Flags: g.genStoreFlags(w, rows)}, true, nil
+		act, flags := g.genAct(), g.genStoreFlags(w, rows)
+		if act == "-" && len(rows) > 0 && g.rng.Chance(0.5) {
+			// remove something the LAST target really has (a removal that only works for some of the targets must show)
+			last := rows[len(rows)-1]
+			if last.deleted() && g.rng.Chance(0.7) {
+				flags = []string{`\Deleted`}
+			} else if fl := w.m.flagList(last.Ent); len(fl) > 0 {
+				flags = []string{fl[g.rng.Pick(len(fl))]}
+			}
+		}
+		return op{Kind: "STORE", S: si, UID: uid, Set: set, Act: act, Silent: g.rng.Chance(0.3), Flags: flags}, true, nil
 	case x < 53:
 		return op{Kind: "EXPUNGE", S: si}, true, nil
 	case x < 58:
